@@ -235,6 +235,10 @@ func VerifC18Floats() {
 	}
 	o3, e3 := vRender(t, Bindings{"x": c18Drop{v}})
 	nd.Assert(e3 == nil && o3 == o1, "float-drop-same-output")
+	// inside an array too: the same number in two widths is one element for uniq, a member for contains
+	o4, e4 := vRender("{{ a | uniq | size }}|{% if a contains y %}in{% endif %}|{{ a | sort | first }}", Bindings{"a": []any{v, float32(v), c18Drop{v}, 7}, "y": float32(v)})
+	o5, e5 := vRender("{{ a | uniq | size }}|{% if a contains y %}in{% endif %}|{{ a | sort | first }}", Bindings{"a": []any{v, v, v, 7}, "y": v})
+	nd.Assert(e4 == nil && e5 == nil && o4 == o5, "float-rep-same-in-arrays")
 	nd.Reach("C18.floats")
 }
 
